@@ -8,7 +8,7 @@ COMMON_ASSUMPTIONS = [
     'mark_modified(&self) is modelled as appending the key to a ghost log (interior mutability of ShardWatchTracker is outside Verus)',
 ]
 
-SHARD_VALUE_UNITS = ['deadline_after', 'vm_new', 'vm_with_expiration', 'vm_is_expired', 'vm_set_expiration', 'vm_clear_expiration',
+SHARD_VALUE_UNITS = ['purge_if_expired', 'deadline_after', 'vm_new', 'vm_with_expiration', 'vm_is_expired', 'vm_set_expiration', 'vm_clear_expiration',
                      'sv_new', 'sv_with_expiration', 'sv_is_expired', 'value_integer', 'value_as_integer']
 
 from . import tables as _t
@@ -49,6 +49,16 @@ SETRANGE_KANI = [
     _kx('setrange_existing_bounded', 'setrange', bounded='existing string <= 4, offset <= 6, value <= 3 symbolic bytes', timeout=900),
 ]
 
+def _ki(name, bounded=None, tier='thorough', timeout=1500):
+    d = {'name': name, 'kind': 'inplace', 'harness': name, 'tier': tier, 'timeout': timeout, 'repo': 'src/storage/skiplist.rs (insert_new_node, remove_node_by_score, get_by_rank, range_by_rank, range_by_score, compare_nodes, compare_with_query) via cfg(kani) hook'}
+    if bounded:
+        d['bounded'] = bounded
+    return d
+_SLB = '2 inserted nodes with CONCRETE tower heights (this instance), symbolic distinct members (u8) and scores (f64, non-NaN); then one removal; unwind 34'
+SKIPLIST_KANI = [_ki('skiplist_comparators', tier='quick', timeout=300)] + \
+    [_ki(f'skiplist_2ins_rm_h{h}_{w}', bounded=_SLB) for h in ('00', '01', '10', '11') for w in ('first', 'second')] + \
+    [_ki(f'skiplist_2ins_queries_h{h}', bounded='2 inserted nodes (concrete heights), symbolic members/scores; symbolic rank and score ranges') for h in ('00', '01', '10')]
+
 PROPS = {
     'C01': {
         'level': 'proof',
@@ -69,6 +79,7 @@ PROPS = {
     'C04': {
         'level': 'proof',
         'verus': [{'group': 'c04_zset_arith'}, {'group': 'shard_zsets', 'units': ['zadd', 'zincrby', 'zrem']}],
+        'kani': SKIPLIST_KANI,
         'explanation': 'rank-range arithmetic of ZRANGE/ZREVRANGE/ZRANK against spec_zrange with the skip list behind an assumed contract',
     },
     'C06': {
